@@ -156,8 +156,11 @@ def factor(value: NumberType) -> Dict[NumberType, NumberType]:
             2 : 1
         }
     """
-    if value == 0 or math.isnan(value):
+    if math.isnan(value):
         return {}
+    if value == 0:
+        # 1 * 0 is the one pair to list: without it "0x + x" has no common factor at all
+        return {1: value}
     np.seterr(invalid="ignore")  # type:ignore
     sqrt: float = np.sqrt(value)  # type:ignore
     np.seterr(invalid="warn")  # type:ignore
